@@ -29,6 +29,9 @@ func ruleRuntimeTypesTotal(c *core.Ctx) {
 			{"0", func(g *gen.G) absint.Bytes { return absint.JSONLit("0") }},
 			{"{}", func(g *gen.G) absint.Bytes { return absint.JSONLit("{}") }},
 			{"[]", func(g *gen.G) absint.Bytes { return absint.JSONLit("[]") }},
+			// called directly (the property speaks of every byte sequence): inputs that are no complete JSON value
+			{"the single byte \" (direct call)", func(g *gen.G) absint.Bytes { return absint.JSONLit("\"") }},
+			{"the empty input (direct call)", func(g *gen.G) absint.Bytes { return absint.JSONLit("") }},
 		}
 		for _, d := range docs {
 			n++
